@@ -449,6 +449,11 @@ class Interp:
                 rec['obs'] = self.eval_obs()
             except Exception as ex:
                 rec['inputs_error'] = str(ex)
+        if self.cfg.get('export_smt') and status in ('ok', 'panic', 'violation'):
+            try:
+                rec['export'] = self.export_path(self.cfg['export_smt'])
+            except Exception as ex:
+                rec['export_error'] = str(ex)[:300]
         line = json.dumps(rec, default=str) + '\n'
         os.write(self.cfg['results_fd'], line.encode())
         for pid in self.children:
@@ -460,6 +465,36 @@ class Interp:
             if self.holds_token:
                 self.cfg['sem'].release()
             os._exit(0)
+
+    def export_path(self, tag):
+        """relational checks (two builds of the crate): the path as data - shape of the input vector, the path
+        condition and the observations as one SMT-LIB2 text. Observation k item j is the constant o<tag>_<k>_<j>."""
+        shape = []
+        for (name, kind, bits, e) in self.inputs:
+            shape.append(['c', int(e)] if isinstance(e, int) else [kind, bits])
+        s = z3.Solver()
+        for c in self.pc:
+            s.add(c)
+        layout = []
+        for k, o in enumerate(self.obs):
+            items = o if isinstance(o, list) else [o]
+            row = []
+            for j, x in enumerate(items):
+                if type(x) is Sym:
+                    e = x.e
+                    if z3.is_bool(e):
+                        e = z3.If(e, z3.BitVecVal(1, 8), z3.BitVecVal(0, 8))
+                    if z3.is_fp(e):
+                        e = z3.fpToIEEEBV(e)
+                    nm = 'o%s_%d_%d' % (tag, k, j)
+                    s.add(z3.BitVec(nm, e.size()) == e)
+                    row.append(['s', nm, e.size()])
+                elif isinstance(x, float):
+                    row.append(['v', struct.unpack('<Q', struct.pack('<d', x))[0]])
+                else:
+                    row.append(['v', int(x)])
+            layout.append({'list': isinstance(o, list), 'items': row})
+        return {'shape': shape, 'smt': s.sexpr(), 'obs': layout}
 
     def input_vector(self, model=None):
         if self.concrete_inputs is not None:
